@@ -743,3 +743,50 @@ M2('c01-table-alias-index-of-other-table', 'C01', 'R5', [
 ])
 # negative controls (exit 0): `_unused: Any = None` appended LAST to _compile_and_find; `scope: MethodDict = dict()` in _compile; `params = dict()` /
 # `params = _new_params()` (module-level `return {}`) in find(); `table = self._converters; converter_idx = len(table); table.append(obj)`
+
+# ----------------------------------------------------------------------- R19 (wave 11: s11-c01-2)
+# the converter instance comes from the class handed to THIS _instantiate_converter call; a memo must be keyed by the class object
+_R19_SLOT = {'file': F, 'old': "        '_converter_map',\n", 'new': "        '_converter_cache',\n        '_converter_map',\n"}
+_R19_INIT = {'file': F, 'old': "        self._finder_src: str = ''\n\n        self._options = CompiledRouterOptions()",
+             'new': "        self._finder_src: str = ''\n        self._converter_cache = {}\n\n        self._options = CompiledRouterOptions()"}
+_R19_BODY = ("        if argstr is None:\n            return klass()\n\n        # NOTE(kgriffs): Don't try this at home. ;)\n"
+             "        src = '{0}({1})'.format(klass.__name__, argstr)\n        return eval(src, {klass.__name__: klass})\n")
+
+
+def _r19_memo(keyline, key='key'):
+    return ("        %s\n        converter = self._converter_cache.get(%s)\n        if converter is None:\n"
+            "            if argstr is None:\n                converter = klass()\n            else:\n"
+            "                src = '{0}({1})'.format(klass.__name__, argstr)\n"
+            "                converter = eval(src, {klass.__name__: klass})\n"
+            "            self._converter_cache[%s] = converter\n        return converter\n" % (keyline, key, key))
+
+
+# the seed: memo keyed by the constructor text '<klass.__name__>(<argstr>)'
+M2('c01-converter-memo-keyed-by-constructor-text', 'C01', 'R19', [_R19_SLOT, _R19_INIT, {
+    'file': F, 'old': _R19_BODY,
+    'new': ("        src = '{0}({1})'.format(klass.__name__, argstr or '')\n\n        converter = self._converter_cache.get(src)\n"
+            "        if converter is None:\n            converter = eval(src, {klass.__name__: klass})\n"
+            "            self._converter_cache[src] = converter\n\n        return converter\n")}])
+# variant: keyed by (qualified name, argstr) -- still text about the class, not the class
+M2('c01-converter-memo-keyed-by-qualname', 'C01', 'R19', [_R19_SLOT, _R19_INIT, {
+    'file': F, 'old': _R19_BODY, 'new': _r19_memo("key = (klass.__module__ + '.' + klass.__qualname__, argstr)")}])
+# variant: keyed by the class alone -- {a:int(2)} and {b:int(3)} share one instance
+M2('c01-converter-memo-keyed-by-class-only', 'C01', 'R19', [_R19_SLOT, _R19_INIT, {
+    'file': F, 'old': _R19_BODY, 'new': _r19_memo('key = klass')}])
+# variant: nested store whose outer key is the class name, reached through a local and try/except KeyError
+M2('c01-converter-nested-memo-outer-key-is-name', 'C01', 'R19', [_R19_SLOT, _R19_INIT, {
+    'file': F, 'old': _R19_BODY,
+    'new': ("        per_class = self._converter_cache.setdefault(klass.__name__, {})\n        try:\n            return per_class[argstr]\n"
+            "        except KeyError:\n            pass\n"
+            "        converter = klass() if argstr is None else eval('{0}({1})'.format(klass.__name__, argstr), {klass.__name__: klass})\n"
+            "        per_class[argstr] = converter\n        return converter\n")}])
+# variant: builder extracted into a same-class helper + setdefault under the name
+M2('c01-converter-setdefault-by-name-through-helper', 'C01', 'R19', [_R19_SLOT, _R19_INIT, {
+    'file': F, 'old': _R19_BODY,
+    'new': ("        return self._converter_cache.setdefault((klass.__name__, argstr), self._build_converter(klass, argstr))\n\n"
+            "    def _build_converter(self, klass, argstr):\n" + _R19_BODY)}])
+# negative controls (exit 0, tried on scratch copies): memo keyed `(klass, argstr)` / `(klass, argstr or '')` / `(id(klass), argstr)` /
+# `self._converter_cache[klass, argstr]` with try/except KeyError and a chained assignment / walrus .get(); nested
+# `setdefault(klass, {})[argstr]`; builder extracted into `_build_converter(klass, argstr)` with and without the (klass, argstr) memo;
+# `@functools.lru_cache(maxsize=None)` on the method; `ctor = klass; ns = {name: ctor}; eval(f'{name}({argstr})', ns)`; one conditional
+# expression; a `_drop_converters()` method that clears / rebinds the store to {}
